@@ -55,6 +55,26 @@ class _FS:
         self._trunc(size)
         self.log.append("truncate")
 
+    def stat(self, fn, *a, **k):
+        import stat as _stat
+        return os.stat_result((_stat.S_IFREG | 0o640, 1, 1, 1, 0, 0, len(self.data), 1000, 2000, 0))
+
+    lstat = stat
+
+    class _Path:
+        def __init__(self, fs):
+            self.fs = fs
+
+        def getsize(self, fn):
+            return len(self.fs.data)
+
+        def __getattr__(self, name):
+            return getattr(os.path, name)
+
+    @property
+    def path(self):
+        return _FS._Path(self)
+
     def open(self, fn, mode="r", *a, **k):
         fs = self
         if mode.startswith("w"):
